@@ -338,6 +338,7 @@ Theorem png_roundtrip : forall colors columns rows, 1 <= colors -> 1 <= columns 
   = FOk (concat (map snd rows)).
 Proof.
   intros colors columns rows Hc Hw Hok. unfold apply_png_predictor. cbn [Z.eqb Pos.eqb orb negb].
+  replace ((colors <? 1) || (columns <? 1)) with false by (symmetry; apply orb_false_intro; apply Z.ltb_ge; lia).
   set (p := colors * columns) in *.
   replace ((p * 8 + 7) / 8) with p by (apply Z.div_unique with (r := 7); lia).
   replace (Z.max 1 (colors * 8 / 8)) with colors by (rewrite Z.div_mul by lia; lia).
@@ -403,6 +404,7 @@ Theorem tiff_roundtrip : forall colors columns rows, 1 <= colors -> 1 <= columns
   apply_tiff_predictor colors columns 8 (flat_map (tiff_enc_row colors) rows) = FOk (concat rows).
 Proof.
   intros colors columns rows Hc Hw Hok. unfold apply_tiff_predictor. cbn [Z.eqb Pos.eqb negb].
+  replace ((colors <? 1) || (columns <? 1)) with false by (symmetry; apply orb_false_intro; apply Z.ltb_ge; lia).
   change (8 / 8) with 1. rewrite Z.mul_1_r.
   assert (E : (Z.to_nat (columns * colors) =? 0)%nat = false) by (apply Nat.eqb_neq; lia).
   rewrite E. apply tiff_lines_ok; [lia|lia|exact Hok|lia].
